@@ -226,6 +226,6 @@ pub fn run(env: &Env) -> i32 {
         Ok(())
     };
     rep.probe("C12-variable-directives-dropped", probe);
-    rep.campaign("embedded-documents", env.cases(4_000, 150_000), (300, 1500), case_fn);
+    rep.campaign("embedded-documents", env.cases(16_000, 200_000), (300, 1500), case_fn);
     rep.finish()
 }
